@@ -9,7 +9,8 @@
     linearisation events: [EIns t m k now] = thread t's call for message m with key k was
     answered "new" and recorded k at clock [now]; [EDup] = answered "duplicate";
     [ESweep c T clk ks] = cleaner c, at clock clk, ran cleanOut(T) and deleted exactly ks. *)
-From WM Require Import Base.Prelude Dedup.Model Dedup.MonProofs Dedup.Proofs Dedup.ApiProofs Dedup.Timed Dedup.TimedProofs Dedup.Clients Dedup.ClientsProofs Dedup.TimelockProofs Dedup.EndToEndProofs Dedup.BatchProofs.
+From WM Require Import Message.Model Handler.RouterHandle.
+From WM Require Import Base.Prelude Dedup.Model Dedup.MonProofs Dedup.Proofs Dedup.ApiProofs Dedup.Timed Dedup.TimedProofs Dedup.Clients Dedup.ClientsProofs Dedup.TimelockProofs Dedup.EndToEndProofs Dedup.BatchProofs Dedup.Glue Dedup.AcceptorProofs Corr.C14.
 Local Open Scope Z_scope.
 
 (** The lookup and the insert of different goroutines never interleave: at most one thread is
@@ -498,3 +499,95 @@ Example C14_timely_demo :
   /\ clock (base ts) = 19 /\ last_tick ts = 18 /\ swept_to ts = 18
   /\ tmon_ok 12 (6 + 3 * 2) 0 (rev (trace (base ts))) = true.
 Proof. vm_compute. repeat split. Qed.
+
+(** ** Round "proofs 3": every acceptor that judges implementation histories accepts every
+    history of the model.  [mon_ok]: C14_trace_accepted.  [api_ok]: C14_api_observation_ok.
+    [tmon_ok] / [dups_fresh]: C14_timely_trace_fresh and, with the harness's slack: *)
+Theorem C14_fresh_verdict_model_accepted : forall w p d c t0 roles sched,
+  0 <= w -> 0 <= d <= p -> roles c = RCleaner -> p + 3 * d <= fresh_slack * w ->
+  dups_fresh w (fresh_slack * w) ([], t0) (rev (trace (base (trun w p d c (tinit t0 roles) sched)))) = true.
+Proof. exact fresh_verdict_model_accepted. Qed.
+Print Assumptions C14_fresh_verdict_model_accepted.
+
+(** the stale-duplicate verdict ([Corr.C14.stale_keys S w], signature
+    C14/expired-key-never-reaccepted; the check uses S = 8): no outside observation of any run
+    of the timely model has a stale duplicate as long as w + p + 3d < S * w *)
+Theorem C14_stale_verdict_model_accepted : forall w p d c t0 roles sched obs S,
+  0 <= w -> 0 <= d <= p -> roles c = RCleaner -> w + p + 3 * d < S * w ->
+  Forall2 encloses obs (trace_calls (rev (trace (base (trun w p d c (tinit t0 roles) sched))))) ->
+  stale_keys S w obs = [].
+Proof. exact stale_verdict_model_accepted. Qed.
+Print Assumptions C14_stale_verdict_model_accepted.
+
+(** (the delivery rule [Corr.C14.delivered_ok] IS equality with [Clients.delivered]:
+    C14_delivered_iff_new.)
+
+    "Accepted again after it expired" for ARBITRARY schedules is false — without a sweep a key
+    is remembered for ever; this is why C14_expired_key_reaccepted_partial carries the sweep
+    premise and C14_expired_key_reaccepted needs the timely environment: *)
+Theorem C14_reaccept_without_sweep_refuted :
+  exists w t0 roles sched pre t m k tins e rest,
+    rev (trace (run w (init t0 roles) sched)) = pre ++ EIns t m k tins :: e :: rest
+    /\ calls_key k e = true /\ tins + 50 * w < ev_time e /\ is_dup e = true.
+Proof. exact reaccept_without_sweep_refuted. Qed.
+Print Assumptions C14_reaccept_without_sweep_refuted.
+
+(** ** The middleware under the Router's settle rule (C02's [handle]): a dropped duplicate is
+    Acked — once, successfully, nothing published; a hasher / repository failure is Nacked;
+    everything else is exactly the wrapped handler's own result. *)
+Theorem C14_dropped_duplicate_is_acked : forall (M : Type) k (pk : @pubkind) (pb : @pubbeh) (h : @chain_result M),
+  handle pk pb (mw_chain (IKey k) RDup h) = (MS Acked CClosed COpen false, [HCall; HSettle true true]).
+Proof. exact @dropped_duplicate_is_acked. Qed.
+Print Assumptions C14_dropped_duplicate_is_acked.
+
+Theorem C14_dedup_failure_is_nacked : forall (M : Type) it r e (pk : @pubkind) (pb : @pubbeh) (h : @chain_result M),
+  mw_result (mw_run it r) = MErr e ->
+  handle pk pb (mw_chain it r h) = (MS Nacked COpen CClosed false, [HCall; HSettle false true]).
+Proof. exact @dedup_failure_is_nacked. Qed.
+Print Assumptions C14_dedup_failure_is_nacked.
+
+Theorem C14_new_message_passes_to_router : forall (M : Type) k (pk : @pubkind) (pb : @pubbeh) (h : @chain_result M),
+  handle pk pb (mw_chain (IKey k) RNew h) = handle pk pb h.
+Proof. exact @new_message_passes_to_router. Qed.
+Print Assumptions C14_new_message_passes_to_router.
+
+(** ** What the code assumes of a custom ExpiringKeyRepository: an atomic check-and-record whose
+    linearisation history is accepted by the timed-set specification.  For ANY such history
+    (no reference to the map repository): *)
+Theorem C14_any_repository_one_per_epoch : forall w t0 es k,
+  mon_ok w t0 es = true -> forallb epoch_ok (epochs k es []) = true.
+Proof. exact accepted_one_per_epoch. Qed.
+Print Assumptions C14_any_repository_one_per_epoch.
+
+Theorem C14_any_repository_retains : forall w tinit pre t m k t0 mid e,
+  mon_ok w tinit (pre ++ EIns t m k t0 :: mid ++ [e]) = true ->
+  calls_key k e = true -> ev_time e <= t0 + w -> is_dup e = true.
+Proof. exact accepted_retained. Qed.
+Print Assumptions C14_any_repository_retains.
+
+Theorem C14_any_repository_api_ok : forall w t0 es obs,
+  mon_ok w t0 es = true -> Forall2 encloses obs (trace_calls es) -> api_ok w obs = true.
+Proof. exact api_sound. Qed.
+Print Assumptions C14_any_repository_api_ok.
+
+(** a repository that fails in the middle of a batch (the map repository never does) leaves the
+    keys before the failure recorded although nothing is published *)
+Theorem C14_custom_repository_failure_records_prefix :
+  exists ms k e, d_repo_keys (dec_run true ms) = [k; 8%N] /\ d_inner (dec_run true ms) = None
+                 /\ d_result (dec_run true ms) = DErr e.
+Proof. exact custom_repository_failure_records_prefix. Qed.
+Print Assumptions C14_custom_repository_failure_records_prefix.
+
+(** ** Glue brought into the model: the Timeout floor (5 ms) of applyDefaultsToDeduplicator and
+    the window validation (>= 1 ms) of NewMapExpiringKeyRepository — an accepted window is
+    non-negative, the hypothesis 0 <= w of the timely theorems. *)
+Theorem C14_timeout_floor : forall t,
+  min_timeout <= eff_timeout t /\ t <= eff_timeout t
+  /\ (min_timeout <= t -> eff_timeout t = t) /\ (t < min_timeout -> eff_timeout t = min_timeout).
+Proof. exact eff_timeout_spec. Qed.
+Print Assumptions C14_timeout_floor.
+
+Theorem C14_window_validation : forall w,
+  (window_ok w = true <-> min_window <= w) /\ (window_ok w = true -> 0 <= w).
+Proof. exact window_ok_spec. Qed.
+Print Assumptions C14_window_validation.
